@@ -1,3 +1,145 @@
 package main
 
-func runFree(c Case) Out { return Out{ID: c.ID, Err: "not implemented"} }
+// Free-running monitor (thorough tier, built with -race): the handler runs its
+// script ungated with small random pauses while a very short real timeout fires
+// somewhere inside it; every response must be exactly the script's complete
+// response or exactly the 503 reply, and nothing may touch the writer afterwards.
+// The race detector checks the atomicity the model assumes.
+
+import (
+	"context"
+	"fmt"
+	"math/rand"
+	"net/http"
+	"reflect"
+	"runtime"
+	"sync/atomic"
+	"time"
+
+	"github.com/zeromicro/go-zero/rest/handler"
+)
+
+type FreeOut struct {
+	ID         int    `json:"id"`
+	Iters      int    `json:"iters"`
+	Complete   int    `json:"complete"`
+	Timeouts   int    `json:"timeouts"`
+	Violations int    `json:"violations"`
+	First      string `json:"first,omitempty"`
+	Err        string `json:"err,omitempty"`
+}
+
+// the script's own response (scripts here have no ctx check, no panic, valid codes)
+func expected(c Case) (int, http.Header, []byte) {
+	h := http.Header{}
+	code, wrote := 200, false
+	var body []byte
+	for _, a := range c.Script {
+		switch a[0].(string) {
+		case "set":
+			h.Set(hname(num(a[1])), hval(num(a[2])))
+		case "add":
+			h.Add(hname(num(a[1])), hval(num(a[2])))
+		case "del":
+			h.Del(hname(num(a[1])))
+		case "wh":
+			if !wrote {
+				code, wrote = int(num(a[1])), true
+			}
+		case "w":
+			wrote = true
+			for _, b := range a[1].([]any) {
+				body = append(body, byte(num(b)))
+			}
+		}
+	}
+	res := http.Header{}
+	for _, kv := range c.H0 {
+		for _, v := range kv[1].([]any) {
+			res.Add(hname(num(kv[0])), hval(num(v)))
+		}
+	}
+	for k, v := range h {
+		res[k] = v
+	}
+	return code, res, body
+}
+
+func runFree(c Case) FreeOut {
+	out := FreeOut{ID: c.ID}
+	rng := rand.New(rand.NewSource(int64(c.ID)*7919 + 1))
+	wantCode, wantHdr, wantBody := expected(c)
+	h0 := http.Header{}
+	for _, kv := range c.H0 {
+		for _, v := range kv[1].([]any) {
+			h0.Add(hname(num(kv[0])), hval(num(v)))
+		}
+	}
+	iters := c.D.Pos
+	for it := 0; it < iters; it++ {
+		pauses := make([]int, len(c.Script)+1)
+		for i := range pauses {
+			pauses[i] = rng.Intn(4)
+		}
+		dur := time.Duration(20+rng.Intn(300)) * time.Microsecond
+		var sret atomic.Bool
+		hDone := make(chan struct{})
+		work := http.HandlerFunc(func(w http.ResponseWriter, r *http.Request) {
+			defer close(hDone)
+			for i, a := range c.Script {
+				switch pauses[i] {
+				case 1:
+					runtime.Gosched()
+				case 2:
+					time.Sleep(time.Duration(10+rng.Intn(60)) * time.Microsecond)
+				}
+				switch a[0].(string) {
+				case "set":
+					w.Header().Set(hname(num(a[1])), hval(num(a[2])))
+				case "add":
+					w.Header().Add(hname(num(a[1])), hval(num(a[2])))
+				case "del":
+					w.Header().Del(hname(num(a[1])))
+				case "wh":
+					w.WriteHeader(int(num(a[1])))
+				case "w":
+					bs := a[1].([]any)
+					p := make([]byte, len(bs))
+					for i, b := range bs {
+						p[i] = byte(num(b))
+					}
+					w.Write(p)
+				}
+			}
+		})
+		rw := &recw{hdr: h0.Clone(), sret: &sret, sgid: gid()}
+		req, _ := http.NewRequestWithContext(context.Background(), http.MethodGet, "http://localhost/x", http.NoBody)
+		handler.TimeoutHandler(dur)(work).ServeHTTP(rw, req)
+		sret.Store(true)
+		select {
+		case <-hDone:
+		case <-time.After(5 * time.Second):
+			out.Err = "handler did not finish"
+			return out
+		}
+		rw.mu.Lock()
+		isComplete := rw.code == wantCode && reflect.DeepEqual(rw.snap, wantHdr) && string(rw.body) == string(wantBody)
+		isTimeout := rw.code == 503 && reflect.DeepEqual(rw.snap, h0) && string(rw.body) == "Request Timeout"
+		late := rw.late
+		rw.mu.Unlock()
+		out.Iters++
+		switch {
+		case late > 0 || (!isComplete && !isTimeout):
+			out.Violations++
+			if out.First == "" {
+				out.First = fmt.Sprintf("timeout %v: status %d headers %v body %v, %d writer call(s) after ServeHTTP returned",
+					dur, rw.code, rw.snap, rw.body, late)
+			}
+		case isComplete:
+			out.Complete++
+		default:
+			out.Timeouts++
+		}
+	}
+	return out
+}
